@@ -257,6 +257,41 @@ class G:
         return doc
 
 
+# ------------------------------------------------------------------- deterministic small-structure sweep
+GRID_BLOCKS = {"para": ["a"], "para2": ["a", "b"], "atx": ["# h"], "hr": ["***"], "html7": ["<d>"], "html6": ["<div>"], "html2": ["<!-- c -->"], "icode": ["    code"],
+               "fence": ["```", "code", "```"], "fence_info": ["~~~ x", "code", "~~~"], "quote": ["> q"], "bullet": ["- x"], "bullet2": ["- x", "- y"], "ol1": ["1. x"], "ol2": ["2. x"],
+               "empty_item": ["-"], "table": ["|a|", "|-|"], "refdef": ["[r]: /u"]}
+GRID_CONTEXTS = [("", ""), ("> ", "> "), ("- ", "  "), ("1. ", "   "), ("- > ", "  > ")]
+GRID_WORDS = ["a", "bb", "1.", "1)", "12.", "-", "+", "=", "#", ">", "*", "~~~", "<b>", "`c d`", "[l](u)", "x1", "9"]
+
+
+def grid_cases():
+    """documents small enough to be classified WITHOUT shrinking (so a new failure cannot slide into a known
+    class): every ordered pair of block forms, with and without a blank line between them, at top level, in a
+    block quote, in a bullet item, in an ordered item and in a quote inside an item; and every sequence of three
+    words from a marker-heavy vocabulary, joined by one or two spaces, at four wrap widths.  Independent of the seed."""
+    out = []
+    plain, gfm = {"unsafe": True}, {"unsafe": True, **{k: True for k in GFM}}
+    for first, rest in GRID_CONTEXTS:
+        for a in GRID_BLOCKS.values():
+            for b in GRID_BLOCKS.values():
+                for sep in ([""], []):
+                    lines = a + sep + b
+                    doc = "\n".join(((first if i == 0 else rest) + l).rstrip(" ") if l else rest.rstrip(" ") for i, l in enumerate(lines)) + "\n"
+                    out.append((doc, gfm))
+    for a in GRID_BLOCKS.values():
+        for b in GRID_BLOCKS.values():
+            out.append(("\n".join(a + [""] + b) + "\n", plain))
+            out.append(("\n".join(a + [""] + b) + "\n", {**gfm, "ol_width": 5, "list_style": "star"}))
+    for w1 in GRID_WORDS:
+        for w2 in GRID_WORDS:
+            for w3 in GRID_WORDS:
+                for sp in (" ", "  "):
+                    for width in (1, 4, 7, 10):
+                        out.append((f"aaaa {w1}{sp}{w2} {w3} dddd\n", {"unsafe": True, "width": width}))
+    return out
+
+
 def gen_feats(rng):
     """the construct set of one document: everything, or a small random subset (so that a failure can be
     attributed to few constructs), or one block family + one inline family"""
@@ -623,9 +658,14 @@ _OL_START = re.compile(rb"^\d{1,9}[.)]([ \t]|$)")
 
 
 def _line_starts(case, toks):
-    """some line of C1 starts (after the container prefix) with one of the block-start tokens"""
+    """some line of C1 that wrapping produced (it is not a line of the output at width 0) starts, after the
+    container prefix, with one of the block-start tokens"""
     ls = c1_lines(case)
+    w0 = case.w0().bytes_of("c1") if case.opts.get("width") else None
+    unwrapped = set((w0 or b"").split(b"\n"))
     for i, l in enumerate(ls):
+        if l in unwrapped:
+            continue
         s = l.lstrip(b"> ")
         for t in toks:
             if t == b"<":
@@ -686,6 +726,26 @@ def p_emph_flank(case):
 
 def p_wrap(case, toks, fail):
     return case.width_induced(fail) and _line_starts(case, toks)
+
+
+_MARKER_TEXT = re.compile(rb"^(\d{1,9}[.)]([ \t]|$)|[-+=])")
+
+
+def marker_starts_inline_node(case):
+    """a Text literal begins with a list marker / setext character and the node before it ends the previous
+    output buffer with a breakable space (a soft break, written as a space under wrapping, or an inline whose
+    spelling ends in a space): output() protects a digit, `-`, `+`, `=` after the space only inside ONE buffer
+    (`buf.get(i + 1)` is None at the end of a buffer), so this is the one place where wrapping can still put a
+    marker first on a line"""
+    for t in texts(case.t1):
+        pv = t.prev()
+        if pv is not None and _MARKER_TEXT.match(t.lit()) and (pv.kind == "SoftBreak" or approx(pv).endswith(b" ")):
+            return True
+    return False
+
+
+def p_wrap_marker(case, fail):
+    return p_wrap(case, [b"-", b"+", b"=", b"1."], fail) and marker_starts_inline_node(case)
 
 
 def holder_line_texts(case):
@@ -781,8 +841,6 @@ def p_edge_space_text(case):
     its inline container: such a space can only come from an entity or an escape and is stripped, or turned
     into a line break by wrapping, on the way back"""
     for t in texts(case.t1):
-        if under(t, ("TableCell",)):
-            continue
         s = t.lit()
         pv, nx = t.prev(), t.next()
         if s[:1] in (b" ", b"\t") and (pv is None or pv.kind in ("SoftBreak", "LineBreak")):
@@ -846,13 +904,38 @@ def p_tilde_text(case):
     return bool(case.opts.get("strikethrough")) and any(b"~" in t.lit() for t in texts(case.t1))
 
 
+NEXT_LINE_BLOCKS = ("HtmlBlock", "ThematicBreak", "Table")
+
+
+def bare_marker(it):
+    """cm.rs writes nothing after the item's marker on its line: the item has no children, or its first child
+    is a block whose format_* begins with blankline() (format_html_block, format_thematic_break, format_table)"""
+    return not it.ch or it.ch[0].kind in NEXT_LINE_BLOCKS
+
+
+def ends_empty(n):
+    """Python mirror of Spec/RoundTrip.v ends_empty.  n is an item or a list: the last thing the formatter
+    writes for n is the marker of an item without children, i.e. following LAST children from n, through items
+    (whose last child must be a list) and lists, one arrives at an item without children.  format_item writes
+    only cr() when it leaves such an item, and neither format_list nor the enclosing format_item add to it, so
+    need_cr is 1 (no blank line) when the block after n is written."""
+    item, lst = n.kind in ("Item", "TaskItem"), n.kind == "List"
+    if not n.ch:
+        return item
+    if not (item or lst):
+        return False
+    c = n.ch[-1]
+    return (c.kind == "List" or not item) and ends_empty(c)
+
+
 def p_empty_item_blank_line(case):
-    """an item without children leaves no blank line behind: in a loose list, or as the last item of a list
-    that is followed by a sibling"""
+    """an item without children leaves no blank line behind (cr() only).  Stated on the last-child chain
+    (ends_empty): (a) a loose list one of whose items ends in an item without children, or (b) a list that
+    ends in an item without children and is followed by a sibling"""
     for l in case.nodes("List"):
-        if l.f[6] == "0" and any(not it.ch for it in l.ch):
+        if l.f[6] == "0" and any(ends_empty(it) for it in l.ch):
             return True
-        if l.ch and not l.ch[-1].ch and l.next() is not None:
+        if ends_empty(l) and l.next() is not None:
             return True
     return False
 
@@ -874,12 +957,20 @@ _ENTITY = re.compile(rb"&(#[0-9]{1,7}|#[xX][0-9a-fA-F]{1,6}|[A-Za-z][A-Za-z0-9]{
 _BS_PUNCT = re.compile(rb"\\[!-/:-@\[-`{-~]")
 
 
+_HTML6_TAGS = (b"address|article|aside|base|basefont|blockquote|body|caption|center|col|colgroup|dd|details|dialog|dir|div|dl|dt|fieldset|figcaption|figure|footer|form|"
+               b"frame|frameset|h1|h2|h3|h4|h5|h6|head|header|hr|html|iframe|legend|li|link|main|menu|menuitem|nav|noframes|ol|optgroup|option|p|param|search|section|"
+               b"summary|table|tbody|td|tfoot|th|thead|title|tr|track|ul")
+# CommonMark 4.6 start conditions 1-6: the HTML blocks that can interrupt a paragraph
+_HTML_BLOCK_START_1_6 = re.compile(rb"^ {0,3}(<(script|pre|style|textarea)([ \t>]|$)|<!--|<\?|<![A-Za-z]|<!\[CDATA\[|</?(" + _HTML6_TAGS + rb")([ \t>]|/>|$))", re.I)
+
+
 def p_html_inline_multiline(case):
-    """an inline HTML literal spans lines and one of its continuation lines starts like a block, or with
+    """an inline HTML literal spans lines and one of its continuation lines starts like a block (a container or
+    leaf block marker, or an HTML block of start conditions 1-6, which interrupt a paragraph), or with
     indentation (kept in the literal on the first parse, stripped as paragraph indentation on the second)"""
     for n in case.nodes("HtmlInline"):
         ls = n.lit().split(b"\n")
-        if any(_BLOCK_START.match(l) or l[:1] in (b" ", b"\t") for l in ls[1:]):
+        if any(_BLOCK_START.match(l) or _HTML_BLOCK_START_1_6.match(l) or l[:1] in (b" ", b"\t") for l in ls[1:]):
             return True
     return False
 
@@ -894,8 +985,18 @@ def p_tasklist_bracket_text(case):
     if not case.opts.get("tasklist"):
         return False
     for it in case.nodes("Item"):
-        if it.ch and it.ch[0].kind == "Paragraph" and it.ch[0].ch and it.ch[0].ch[0].kind == "Text" and _TASK_TEXT.match(it.ch[0].ch[0].lit()):
-            return True
+        if it.ch and it.ch[0].kind == "Paragraph" and it.ch[0].ch and it.ch[0].ch[0].kind == "Text":
+            # the text at the start of the paragraph, over plain Text and (with wrapping: written as a space) soft breaks
+            lead = b""
+            for c in it.ch[0].ch:
+                if c.kind == "Text":
+                    lead += c.lit()
+                elif c.kind == "SoftBreak" and case.opts.get("width"):
+                    lead += b" "
+                else:
+                    break
+            if _TASK_TEXT.match(lead):
+                return True
     return False
 
 
@@ -914,23 +1015,23 @@ def p_entity_in_url_or_title(case):
 
 
 def p_info_unescaped(case):
-    """a fenced code block's info string holds a newline, a backslash escape or an entity: it is written raw"""
+    """a fenced code block's info string holds a line ending (LF or CR, from a numeric entity), a backslash escape
+    or an entity: it is written raw"""
     for c in case.nodes("CodeBlock"):
         info = c.lit(4)
-        if b"\n" in info or _BS_PUNCT.search(info) or _ENTITY.search(info):
+        if b"\n" in info or b"\r" in info or _BS_PUNCT.search(info) or _ENTITY.search(info):
             return True
     return False
 
 
 def p_nested_empty_items_hr(case):
-    """bullet items nested as first children at least three deep ending in an empty item, or in an item
-    whose first block is an HTML block (written on the next line), are spelled `- - - ` (or `* * * `)
-    alone on a line: a thematic break"""
+    """bullet items nested as first children at least three deep ending in an item after whose marker nothing
+    is written on the line (bare_marker: no children, or a first block that begins with blankline(): HTML
+    block, thematic break, table) are spelled `- - - ` (or `* * * `) alone on a line: a thematic break"""
     if case.opts.get("list_style") == "plus":
         return False
     for it in case.nodes("Item"):
-        # empty, or starting with a block the formatter begins on the line AFTER the markers (HTML block)
-        if (it.ch and it.ch[0].kind != "HtmlBlock") or it.parent.f[0] != "b":
+        if not bare_marker(it) or it.parent.f[0] != "b":
             continue
         d, n = 1, it
         while n.parent.prev() is None and n.parent.parent is not None and n.parent.parent.kind == "Item" and n.parent.parent.parent.f[0] == "b" and n.parent.parent.ch[0] is n.parent:
@@ -939,6 +1040,12 @@ def p_nested_empty_items_hr(case):
         if d >= 3:
             return True
     return False
+
+
+def p_loose_single_block_list(case):
+    """a loose list with one item that has one block: cm.rs spells looseness only through the blank lines that
+    blocks leave between items and between the blocks of an item, and here there is no such place"""
+    return any(l.f[6] == "0" and len(l.ch) == 1 and len(l.ch[0].ch) == 1 for l in case.nodes("List"))
 
 
 def p_ol_width_first_block(case):
@@ -1019,16 +1126,125 @@ def _in_tight_item(n):
 
 
 def p_tight_item_quote_then_para(case):
-    """inside an item of a tight list the block that follows a block quote (after the lists it closes) is a
-    paragraph or another block quote: the blank line is capped to one newline, so the paragraph becomes a lazy
-    continuation of the quote / the two quotes merge"""
+    """inside an item of a tight list the block that follows a block quote (after the lists it closes) begins
+    with a line that can continue a paragraph lazily (a paragraph, a table: its header row, a code block written
+    in the indented form) or is another block quote: the blank line is capped to one newline, so that line
+    becomes a lazy continuation of the quote / the two quotes merge"""
     for q in case.nodes("BlockQuote"):
         n = q
         while n.next() is None and n.parent is not None:
             n = n.parent
         x = n.next()
-        if x is not None and x.kind in ("Paragraph", "BlockQuote") and _in_tight_item(x):
+        if x is not None and _in_tight_item(x) and (x.kind in ("Paragraph", "BlockQuote", "Table") or (x.kind == "CodeBlock" and written_indented(x, case.opts))):
             return True
+    return False
+
+
+def nearest_item_tight(n):
+    """the closest enclosing Item/TaskItem of n belongs to a tight list"""
+    for a in n.ancestors():
+        if a.kind in ("Item", "TaskItem"):
+            return a.parent.f[6] == "1"
+    return False
+
+
+def p_tight_item_blank_line_in_quote(case):
+    """inside an item of a tight list, two consecutive blocks of a container other than the item itself (a
+    block quote) that only a blank line keeps apart: paragraph + paragraph, paragraph + HTML block of start
+    condition 7 (cannot interrupt a paragraph), table + paragraph or table (the line becomes a table row),
+    HTML block of start condition 6 or 7 (it ends only at a blank line) + anything.
+    in_tight_list_item stays set for everything below the item, and output() caps every need_cr to 1 there"""
+    for b in case.nodes():
+        a = b.prev()
+        if a is None or b.parent.kind == "Document" or not nearest_item_tight(b):
+            continue
+        if a.kind == "HtmlBlock" and a.f[0] in ("6", "7"):
+            return True
+        if b.parent.kind in ("Item", "TaskItem"):
+            continue
+        if a.kind == "Paragraph" and (b.kind == "Paragraph" or (b.kind == "HtmlBlock" and b.f[0] == "7")):
+            return True
+        if a.kind == "Table" and b.kind in ("Paragraph", "Table"):
+            return True
+    return False
+
+
+def p_amp_before_text_node(case):
+    """a Text literal ends in `&` and the next sibling is a Text node that completes a named entity (adjacent
+    Text nodes exist inside links and images: postprocess_text_nodes does not recurse into them).  outc looks
+    for a letter after `&` only inside the buffer of ONE node (nextc = buf.get(i + 1)), so this `&` is written bare"""
+    for t in texts(case.t1):
+        nx = t.next()
+        if t.lit().endswith(b"&") and nx is not None and nx.kind == "Text" and re.match(rb"^[A-Za-z][A-Za-z0-9]{1,31};", nx.lit()):
+            return True
+    return False
+
+
+def p_emph_in_emph_same_delim(case):
+    """an Emph that is a child of an Emph and has a sibling: format_emph alternates to `_` only for an Emph that is
+    the ONLY child of an Emph, so inner and outer delimiters are both `*` and the inner opening run, between two
+    non-space characters, is also a closer for the outer one (`*a*z* l*`)"""
+    return any(e.parent is not None and e.parent.kind == "Emph" and len(e.parent.ch) > 1 for e in case.nodes("Emph"))
+
+
+def p_table_cell_title_newline(case):
+    """a link or image inside a table cell whose title holds a newline (possible through a reference definition):
+    it is written raw and ends the table row"""
+    return any(b"\n" in l.lit(1) and under(l, ("TableCell",)) for l in case.nodes(("Link", "Image")))
+
+
+def p_autolink_html_block_start(case):
+    """an autolink whose text starts with `?` or `!` + capital letter (an e-mail address such as ?@b) is the first
+    thing on a line: written `<?@b>` it is the start of an HTML block (start conditions 3 and 4), which
+    interrupts the paragraph.  In the source the line was indented four or more columns, where no HTML block starts"""
+    for l in case.nodes("Link"):
+        pv = l.prev()
+        if is_autolink_node(l) and re.match(rb"^(\?|![A-Z])", l.ch[0].lit()) and (pv is None or pv.kind in ("SoftBreak", "LineBreak")):
+            return True
+    return False
+
+
+def p_url_control_char(case):
+    """a link or image destination holds an ASCII control character that is not white space (from a numeric
+    entity): the Url mode of outc percent-encodes white space only, and CommonMark allows no control character
+    in a destination, so the link is text on re-parse"""
+    return any(any((c < 0x20 and c not in (9, 10, 11, 12, 13)) or c == 0x7f for c in l.lit(0)) for l in case.nodes(("Link", "Image")))
+
+
+def p_title_backslash_end(case):
+    """a link or image title ends in a backslash and a `"` follows later in the same paragraph: the title is
+    written `"..\\\\"` and scanners::link_title takes the longest match, reading the final `\\"` as an escaped
+    quote (its `[^"]` alternative also matches a backslash) and running on to the next `"`"""
+    for l in case.nodes(("Link", "Image")):
+        if not l.lit(1).endswith(b"\\"):
+            continue
+        h = l
+        while h.parent is not None and not is_inline_holder(h):
+            h = h.parent
+        seen = False
+        for d in h.walk():
+            if d is l:
+                seen = True
+            elif seen and not under_node(d, l):
+                if (d.kind in ("Link", "Image") and d.lit(1)) or (d.kind in ("Text", "HtmlInline", "Raw") and b'"' in d.lit()) or (d.kind == "Code" and b'"' in d.lit(1)) \
+                        or (d.kind in ("Link", "Image") and b'"' in d.lit(0)):
+                    return True
+    return False
+
+
+def under_node(n, a):
+    return any(x is a for x in n.ancestors())
+
+
+def p_title_multiline(case):
+    """a link or image title spans lines and a continuation line starts with a space or tab (a lazy continuation
+    line keeps its indentation) or like a block (`* `, `>`, an HTML block of start conditions 1-6 ...): the Title
+    mode of outc pushes the newline as an ordinary byte (no begin_line, no prefix, no escaping of what follows), so
+    the spaces are stripped as indentation on re-parse, or the block marker interrupts the paragraph"""
+    for l in case.nodes(("Link", "Image")):
+        for ln in l.lit(1).split(b"\n")[1:]:
+            if ln[:1] in (b" ", b"\t") or _BLOCK_START.match(ln) or _HTML_BLOCK_START_1_6.match(ln):
+                return True
     return False
 
 
@@ -1066,9 +1282,11 @@ def p_table_cell_wrap(case):
 
 
 def p_end_list_after_empty_item(case):
+    """C17: a list that ends (ends_empty: following last children through nested lists) in an item without
+    children, directly followed by a list or a code block: the end-of-list comment is written after cr() only"""
     for l in case.nodes("List"):
         nx = l.next()
-        if nx is not None and nx.kind in ("List", "CodeBlock") and l.ch and not l.ch[-1].ch:
+        if nx is not None and nx.kind in ("List", "CodeBlock") and ends_empty(l):
             return True
     return False
 
@@ -1169,14 +1387,34 @@ def shrink_case(r, fail, ask, budget=400):
     return run(d, o)
 
 
+_JOB_PROC = None
+
+
+def _shrink_job(job):
+    """worker of the shrinking pool: (prop, doc, opts, deadline) -> shrunk (doc, opts), or (None, None) past the deadline"""
+    global _JOB_PROC
+    import time
+    prop, doc, opts, deadline = job
+    if time.time() > deadline:
+        return (None, None)
+    if _JOB_PROC is None:
+        _JOB_PROC = Proc(vlib.VH["release"])
+    fail = fail07 if prop == "C07" else (lambda r, ask, ws=True: fail17(r))
+    ask = _JOB_PROC.ask
+    r = parse_rt3(ask(rt3_line(doc, opts)), doc, opts)
+    s = shrink_case(r, fail, ask)
+    return (s.doc, s.opts)
+
+
 # name -> (predicate(case, fail) -> bool, where the predicate is evaluated)
 def _c(f):
     return lambda case, fail: f(case)
 
 
 CLASSES = {
-    "wrap_marker_line_start": lambda case, fail: p_wrap(case, [b"-", b"+", b"=", b"1."], fail),
-    "wrap_tilde_fence_line_start": lambda case, fail: p_wrap(case, [b"~~~"], fail),
+    "wrap_marker_line_start": lambda case, fail: p_wrap_marker(case, fail),
+    # `~~~` is never escaped; "```" is only written bare inside a code span, whose content is wrapped too
+    "wrap_tilde_fence_line_start": lambda case, fail: p_wrap(case, [b"~~~", b"```"], fail),
     "wrap_html_line_start": lambda case, fail: p_wrap(case, [b"<"], fail),
     "tilde_fence_text": _c(p_tilde_fence_text),
     "table_delim_row_text": _c(p_table_delim_row_text),
@@ -1218,6 +1456,15 @@ CLASSES = {
     "task_item_non_paragraph_first": _c(p_task_item_non_paragraph_first),
     "end_list_comment_in_container": _c(p_end_list_comment_in_container),
     "end_list_after_empty_item": _c(p_end_list_after_empty_item),
+    "loose_single_block_list": _c(p_loose_single_block_list),
+    "tight_item_blank_line_in_quote": _c(p_tight_item_blank_line_in_quote),
+    "amp_before_text_node": _c(p_amp_before_text_node),
+    "title_multiline": _c(p_title_multiline),
+    "emph_in_emph_same_delim": _c(p_emph_in_emph_same_delim),
+    "table_cell_title_newline": _c(p_table_cell_title_newline),
+    "autolink_html_block_start": _c(p_autolink_html_block_start),
+    "url_control_char": _c(p_url_control_char),
+    "title_backslash_end": _c(p_title_backslash_end),
 }
 
 
@@ -1236,7 +1483,7 @@ KIND_ORDER = ["Document", "FrontMatter", "BlockQuote", "List", "Item", "Descript
               "FootnoteReference", "Math", "MultilineBlockQuote", "Escaped", "WikiLink", "Underline", "Subscript", "SpoileredText", "EscapedTag", "Alert"]
 # classes whose predicate is ALSO extracted from Spec/RoundTrip.v (tree_classes, in this order); the check
 # evaluates the extracted predicate and requires it to agree with the Python one on every shrunk case
-COQ_CLASSES = ["tilde_text", "empty_dest_title", "heading_softbreak", "nested_link", "empty_item_blank_line", "end_list_after_empty_item", "ol_width_code"]
+COQ_CLASSES = ["tilde_text", "empty_dest_title", "heading_softbreak", "nested_link", "empty_item_blank_line", "end_list_after_empty_item", "ol_width_code", "loose_single_block_list"]
 # classes decided from both outputs (Python only)
 OUTPUT_CLASSES = ["wrap_whitespace", "amp_escape_unstable", "raw_html_pre_ws", "wrap_marker_line_start", "wrap_tilde_fence_line_start", "wrap_html_line_start"]
 
@@ -1306,6 +1553,9 @@ def run(c, prop, tier):
     repaired = {e["class"]: e for e in recorded_entries(prop, "fixed")}
     rng = c.rng
     n = 6000 if tier == "quick" else 120000
+    if tier != "quick" and os.environ.get("VERIF_N", "").isdigit():
+        # development knob: an intermediate size; the registered tiers never set it
+        n = int(os.environ["VERIF_N"])
     cases, used = [], []
     for _ in range(n):
         d, u = gen_doc(rng)
@@ -1372,17 +1622,27 @@ def run(c, prop, tier):
             c.problem("correspondence", "rt_collapse_shape", f"extracted collapse_nested_strong disagrees with the Python mirror: {o[:80]}", {"line": f"rt_collapse_shape {r.t1}"})
             break
     c.cov["correspondences"]["collapse_nested_strong (extracted) = python mirror, on parser trees with nested strong"] = len(ns)
-    # shrink, then classify
+    # shrink (in worker processes, each with its own harness process; the result does not depend on the
+    # scheduling: shrink_case is a function of the case), then classify
     t0 = time.time()
     budget_s = 70 if tier == "quick" else 3000
     shrunk = []
     unshrunk = 0
-    for r, u in failing:
-        if time.time() - t0 > budget_s:
+    jobs = [(prop, r.doc, r.opts, t0 + budget_s) for r, _ in failing]
+    if jobs:
+        import multiprocessing
+        with multiprocessing.get_context("fork").Pool(max(1, min(vlib.NPROC, 12))) as pool:
+            res = pool.map(_shrink_job, jobs, chunksize=8)
+    else:
+        res = []
+    for (r, u), (sd, so) in zip(failing, res):
+        if sd is None:
             unshrunk += 1
             s = r
         else:
-            s = shrink_case(r, fail, ask)
+            s = parse_rt3(ask(rt3_line(sd, so)), sd, so)
+            if not fail(s, ask):     # cannot happen (the harness is deterministic); keep the original then
+                s = r
         shrunk.append((r, s, u))
     f1 = lambda rr: fail(rr, ask)
     cls_lines = [f"rt_classes {s.opts.get('ol_width', 0)} {s.t1}" for _, s, _ in shrunk if s.t1 and s.t1 != "-"]
@@ -1413,6 +1673,37 @@ def run(c, prop, tier):
             c.known_hit(k, {"doc": hx(s.doc), "opts": docgen.opts_token(s.opts)})
         for f in u:
             feat_fail[f] = feat_fail.get(f, 0) + 1
+    # the deterministic small-structure sweep: classified WITHOUT shrinking (the documents are minimal already),
+    # so that a new failure cannot slide into a known class on the way down
+    gcases = grid_cases()
+    grecs = run_rt3(gcases, "release")
+    grid = {"documents": len(grecs), "failing": 0, "unclassified": 0, "per_class": {}}
+    for r in grecs:
+        c.count((docgen.opts_token(r.opts) + ":" + r.doc).encode("utf-8", "surrogatepass"), r.t1 is not None and r.t1.count("(") > 3)
+        if r.status != "ok":
+            c.violation("the harness died or hung on a round trip (small-structure sweep)", {"doc": hx(r.doc), "opts": docgen.opts_token(r.opts), "status": r.status[:200], "line": rt3_line(r.doc, r.opts)})
+            continue
+        if not fail(r, ask):
+            continue
+        grid["failing"] += 1
+        cl, _case = classify(r, fail, ask)
+        cl = [k for k in cl if k in known]
+        if not cl:
+            grid["unclassified"] += 1
+            unclassified += 1
+            if grid["unclassified"] <= 20:
+                c.violation(f"{prop}: round trip failure outside every known class (small-structure sweep, classified without shrinking)",
+                            {"doc": hx(r.doc), "opts": docgen.opts_token(r.opts), "doc_text": r.doc[:300],
+                             "c1": (r.bytes_of("c1") or b"").decode("utf-8", "replace")[:400], "c2": (r.bytes_of("c2") or b"").decode("utf-8", "replace")[:400],
+                             "h1": (r.bytes_of("h1") or b"").decode("utf-8", "replace")[:400], "h2": (r.bytes_of("h2") or b"").decode("utf-8", "replace")[:400],
+                             "line": rt3_line(r.doc, r.opts)})
+            continue
+        for k in cl:
+            grid["per_class"][k] = grid["per_class"].get(k, 0) + 1
+            c.known_hit(k, {"doc": hx(r.doc), "opts": docgen.opts_token(r.opts)})
+    grid["per_class"] = dict(sorted(grid["per_class"].items(), key=lambda kv: -kv[1]))
+    c.cov["spec_checks"][f"{prop} end-to-end equation on the deterministic small-structure sweep (block pairs x contexts, word triples x widths)"] = len(grecs)
+    c.cov["small_structure_sweep"] = grid
     proc.close()
     total = len(recs)
     c.cov["spec_checks"][f"{prop} end-to-end equation on generated documents x options"] = total
